@@ -561,7 +561,7 @@ func E11Replay(c *core.Ctx, r *core.Report) {
 
 // E11CutCarried: in SplitAt's cut loops the previous cut position is carried into the next cut.
 func E11CutCarried(c *core.Ctx, r *core.Report) {
-	r.Rule("E11.cut-carried", "Path.SplitAt: in every curve case's cut loop the cut parameter t := invL(…) is saved into a variable declared before the loop (V = t), and V is read inside the loop: each cut splits the remaining piece relative to the previous cut, not relative to the start of the whole segment (sibling agreement between the quadratic, cubic and arc cases)")
+	r.Rule("E11.cut-carried", "Path.SplitAt: in every curve case's cut loop the cut parameter invL(…) (named or not) is saved into a float variable declared before the loop, that variable is assigned exactly this absolute parameter — not a value rescaled to the remaining piece — and it is read inside the loop: each cut splits the remaining piece relative to the previous cut, not relative to the start of the whole segment (sibling agreement between the quadratic, cubic and arc cases)")
 	p := c.MustPkg("")
 	info := p.TypesInfo
 	fd := core.MustFuncDecl(p, "Path.SplitAt")
@@ -574,43 +574,106 @@ func E11CutCarried(c *core.Ctx, r *core.Report) {
 			if !ok || fs.Init != nil || fs.Post != nil || fs.Cond == nil {
 				return true
 			}
-			// find `t := invL(…)`: a call of a local function value
+			// the absolute cut parameter: a call of a local function value (invL(…)), possibly named by `t := invL(…)`
+			var cutCall *ast.CallExpr
 			var cutVar types.Object
-			for _, s := range fs.Body.List {
-				as, ok := s.(*ast.AssignStmt)
-				if !ok || as.Tok != token.DEFINE || len(as.Lhs) != 1 || len(as.Rhs) != 1 {
-					continue
-				}
-				call, ok := core.Unparen(as.Rhs[0]).(*ast.CallExpr)
-				if !ok {
-					continue
+			ast.Inspect(fs.Body, func(m ast.Node) bool {
+				call, ok := m.(*ast.CallExpr)
+				if !ok || cutCall != nil {
+					return true
 				}
 				if id, ok := call.Fun.(*ast.Ident); ok {
 					if v, ok := core.ObjOf(info, id).(*types.Var); ok {
-						if _, isSig := v.Type().Underlying().(*types.Signature); isSig {
-							cutVar = info.Defs[as.Lhs[0].(*ast.Ident)]
+						if sig, isSig := v.Type().Underlying().(*types.Signature); isSig && v.Pos() < fs.Pos() && sig.Params().Len() == 1 && sig.Results().Len() == 1 {
+							if b, ok := sig.Results().At(0).Type().Underlying().(*types.Basic); ok && b.Info()&types.IsFloat != 0 {
+								cutCall = call
+							}
+						}
+					}
+				}
+				return true
+			})
+			if cutCall == nil {
+				return true
+			}
+			for _, s := range fs.Body.List {
+				if as, ok := s.(*ast.AssignStmt); ok && as.Tok == token.DEFINE && len(as.Lhs) == 1 && len(as.Rhs) == 1 && core.Unparen(as.Rhs[0]) == ast.Expr(cutCall) {
+					cutVar = info.Defs[as.Lhs[0].(*ast.Ident)]
+				}
+			}
+			isAbs := func(e ast.Expr) bool {
+				e = core.Unparen(e)
+				if id, ok := e.(*ast.Ident); ok && cutVar != nil && core.ObjOf(info, id) == cutVar {
+					return true
+				}
+				return types.ExprString(e) == types.ExprString(cutCall)
+			}
+			// locals of the loop body that depend on the cut (t, tsub, …)
+			dep := map[types.Object]bool{}
+			if cutVar != nil {
+				dep[cutVar] = true
+			}
+			mentionsDep := func(e ast.Node) bool {
+				found := false
+				ast.Inspect(e, func(k ast.Node) bool {
+					if k == ast.Node(cutCall) {
+						found = true
+					}
+					if kc, ok := k.(*ast.CallExpr); ok && types.ExprString(kc) == types.ExprString(cutCall) {
+						found = true
+					}
+					if id, ok := k.(*ast.Ident); ok && dep[core.ObjOf(info, id)] {
+						found = true
+					}
+					return true
+				})
+				return found
+			}
+			for _, s := range fs.Body.List {
+				if as, ok := s.(*ast.AssignStmt); ok && as.Tok == token.DEFINE {
+					for i, l := range as.Lhs {
+						if id, ok := l.(*ast.Ident); ok && i < len(as.Rhs) && mentionsDep(as.Rhs[i]) {
+							dep[info.Defs[id]] = true
 						}
 					}
 				}
 			}
-			if cutVar == nil {
-				return true
-			}
 			n++
 			key := fmt.Sprintf("canvas.Path.SplitAt|%s|cut loop", label)
-			// V = t
+			// float variables declared before the loop and assigned from the cut inside it
 			var carried types.Object
 			var carryStmt ast.Node
+			bad := ""
 			for _, s := range fs.Body.List {
 				as, ok := s.(*ast.AssignStmt)
-				if !ok || as.Tok != token.ASSIGN || len(as.Lhs) != 1 || len(as.Rhs) != 1 {
+				if !ok || as.Tok != token.ASSIGN || len(as.Lhs) != len(as.Rhs) {
 					continue
 				}
-				if rid, ok := core.Unparen(as.Rhs[0]).(*ast.Ident); ok && core.ObjOf(info, rid) == cutVar {
-					if lid, ok := as.Lhs[0].(*ast.Ident); ok {
-						carried, carryStmt = core.ObjOf(info, lid), as
+				for i, l := range as.Lhs {
+					lid, ok := l.(*ast.Ident)
+					if !ok {
+						continue
+					}
+					o := core.ObjOf(info, lid)
+					if o == nil || !(o.Pos() < fs.Pos()) {
+						continue
+					}
+					if b, ok := o.Type().Underlying().(*types.Basic); !ok || b.Info()&types.IsFloat == 0 {
+						continue
+					}
+					if !mentionsDep(as.Rhs[i]) {
+						continue
+					}
+					if isAbs(as.Rhs[i]) {
+						carried, carryStmt = o, as
+					} else {
+						bad = fmt.Sprintf("`%s` is carried to the next cut but is assigned `%s`, not the cut's own parameter `%s`: from the third cut of one segment on, the remaining piece is split at a parameter measured on the wrong scale", lid.Name, c.Src(as.Rhs[i]), c.Src(cutCall))
 					}
 				}
+			}
+			if bad != "" {
+				r.Fail("E11.cut-carried", key, c.Pos(fs.Pos()), bad)
+				return true
 			}
 			if carried == nil {
 				r.Fail("E11.cut-carried", key, c.Pos(fs.Pos()), "the cut parameter is not saved for the next iteration: the second cut of one segment would be computed from the segment's start")
@@ -5052,4 +5115,415 @@ func E11DashPairTogether(c *core.Ctx, r *core.Report) {
 	}
 	r.Count("E11.dash-canonical-callers", n)
 	r.Floor("E11.dash-canonical-callers", 2)
+}
+
+// E11SVGVocabulary: every property the SVG writer emits for a path is understood by the SVG importer.
+func E11SVGVocabulary(c *core.Ctx, r *core.Report) {
+	r.Rule("E11.svg-vocabulary", "C19 promises that the SVG the library's own SVG back-end writes for a path drawing is read back to an equivalent drawing. The property names the writer can emit for a path — the `name=\"` attributes and `;name:` style declarations in the constant format strings of SVG.RenderPath — are therefore all handled by the importer: each is a case label of svgParser.setAttribute (or one of the structural attributes d/style/transform/id/class handled elsewhere). A property the writer emits and the reader drops (fill-rule was one) changes the drawing on the round trip")
+	wp := c.MustPkg("renderers/svg")
+	rp := c.MustPkg("")
+	wfd := core.MustFuncDecl(wp, "SVG.RenderPath")
+	sa := core.MustFuncDecl(rp, "svgParser.setAttribute")
+	r.Func("svg.SVG.RenderPath")
+	r.Func("canvas.svgParser.setAttribute")
+	handled := map[string]bool{"d": true, "style": true, "transform": true, "id": true, "class": true}
+	ast.Inspect(sa.Body, func(m ast.Node) bool {
+		if cc, ok := m.(*ast.CaseClause); ok {
+			for _, e := range cc.List {
+				if v := core.ConstVal(rp.TypesInfo, e); v != nil && v.Kind() == constant.String {
+					handled[constant.StringVal(v)] = true
+				}
+			}
+		}
+		return true
+	})
+	emitted := map[string]token.Pos{}
+	isName := func(s string) bool {
+		if s == "" {
+			return false
+		}
+		for _, ch := range s {
+			if !(ch >= 'a' && ch <= 'z' || ch == '-') {
+				return false
+			}
+		}
+		return true
+	}
+	ast.Inspect(wfd.Body, func(m ast.Node) bool {
+		e, ok := m.(ast.Expr)
+		if !ok {
+			return true
+		}
+		v := core.ConstVal(wp.TypesInfo, e)
+		if v == nil || v.Kind() != constant.String {
+			return true
+		}
+		s := constant.StringVal(v)
+		// ` name="`  and  `;name:`
+		for i := 0; i < len(s); i++ {
+			if s[i] == ' ' || s[i] == ';' || s[i] == '<' {
+				j := i + 1
+				for j < len(s) && (s[j] >= 'a' && s[j] <= 'z' || s[j] == '-') {
+					j++
+				}
+				if j < len(s) && j > i+1 {
+					name := s[i+1 : j]
+					if (s[i] == ' ' && strings.HasPrefix(s[j:], `="`)) || (s[i] == ';' && s[j] == ':') {
+						if isName(name) {
+							emitted[name] = e.Pos()
+						}
+					}
+				}
+			}
+		}
+		return false
+	})
+	var names []string
+	for nm := range emitted {
+		names = append(names, nm)
+	}
+	sort.Strings(names)
+	for _, nm := range names {
+		key := "svg.SVG.RenderPath|property " + nm + " is understood by ParseSVG"
+		if handled[nm] {
+			r.OK("E11.svg-vocabulary", key, c.Pos(emitted[nm]), "")
+		} else {
+			r.Fail("E11.svg-vocabulary", key, c.Pos(emitted[nm]), fmt.Sprintf("the SVG writer emits the property `%s` for a path, but svgParser.setAttribute has no case for it: it is dropped when the document is read back", nm))
+		}
+	}
+	r.Count("E11.svg-emitted-properties", len(names))
+	r.Floor("E11.svg-emitted-properties", 8)
+}
+
+// E11SVGColorGrammar: the colour grammar of the importer covers what CSSColor writes.
+func E11SVGColorGrammar(c *core.Ctx, r *core.Report) {
+	r.Rule("E11.svg-color-grammar", "svg.go reads back the colours the library writes: CSSColor (used by the SVG renderer) prints translucent colours as `rgba(r,g,b,a)` with a a fraction in [0,1], so in parseColor's rgba branch the fourth component is parsed by a function that uses strconv.ParseFloat (not an integer parser); and wherever a `%` suffix is stripped from a number in svg.go the value is divided by 100 before it is scaled (a percentage of 255 or of a length). An integer-parsed alpha makes ParseSVG fail on the library's own output; a percentage multiplied by 255 directly wraps around")
+	p := c.MustPkg("")
+	info := p.TypesInfo
+	pc := core.MustFuncDecl(p, "svgParser.parseColor")
+	r.Func("canvas.svgParser.parseColor")
+	// (1) the 4th component of the 4-component branch
+	key1 := "canvas.svgParser.parseColor|alpha of rgba() is parsed as a fraction"
+	var callee *types.Func
+	ast.Inspect(pc.Body, func(m ast.Node) bool {
+		call, ok := m.(*ast.CallExpr)
+		if !ok || len(call.Args) != 1 {
+			return true
+		}
+		ie, ok := core.Unparen(call.Args[0]).(*ast.IndexExpr)
+		if !ok {
+			return true
+		}
+		if v, ok := core.ConstInt(info, ie.Index); ok && v == 3 {
+			callee = core.CalleeOf(info, call)
+		}
+		return true
+	})
+	if callee == nil {
+		r.Fail("E11.svg-color-grammar", key1, c.Pos(pc.Pos()), "no call parsing the fourth component of rgba() was found")
+	} else {
+		var cfd *ast.FuncDecl
+		for _, fd := range core.AllFuncDecls(p) {
+			if info.Defs[fd.Name] == types.Object(callee) {
+				cfd = fd
+			}
+		}
+		float, integer := false, false
+		if cfd != nil && cfd.Body != nil {
+			ast.Inspect(cfd.Body, func(m ast.Node) bool {
+				if call, ok := m.(*ast.CallExpr); ok {
+					if core.IsPkgFunc(info, call, "strconv", "ParseFloat") {
+						float = true
+					}
+					if core.IsPkgFunc(info, call, "strconv", "ParseUint") || core.IsPkgFunc(info, call, "strconv", "ParseInt") || core.IsPkgFunc(info, call, "strconv", "Atoi") {
+						integer = true
+					}
+				}
+				return true
+			})
+		}
+		// a function that parses percentages with ParseFloat but plain numbers with ParseUint is an integer parser for `.5`
+		if float && !integer {
+			r.OK("E11.svg-color-grammar", key1, c.Pos(pc.Pos()), callee.Name())
+		} else {
+			r.Fail("E11.svg-color-grammar", key1, c.Pos(pc.Pos()), fmt.Sprintf("the alpha of rgba() is parsed by %s, which parses plain numbers as integers: `rgba(255,0,0,.5)`, the form CSSColor writes, is rejected", callee.Name()))
+		}
+	}
+	// (2) percent suffix → /100
+	n := 0
+	for _, fd := range core.AllFuncDecls(p) {
+		if fd.Body == nil || !strings.HasSuffix(c.Fset.Position(fd.Pos()).Filename, "/svg.go") {
+			continue
+		}
+		ast.Inspect(fd.Body, func(m ast.Node) bool {
+			is, ok := m.(*ast.IfStmt)
+			if !ok {
+				return true
+			}
+			// cond: X[len(X)-1] == '%'
+			isPct := false
+			ast.Inspect(is.Cond, func(k ast.Node) bool {
+				if be, ok := k.(*ast.BinaryExpr); ok && be.Op == token.EQL {
+					if v, ok := core.ConstInt(info, be.Y); ok && v == '%' {
+						if _, ok := core.Unparen(be.X).(*ast.IndexExpr); ok {
+							isPct = true
+						}
+					}
+				}
+				return true
+			})
+			if !isPct {
+				return true
+			}
+			// the branch parses a float; every return/assignment using it must divide by 100 somewhere in the function's percentage handling
+			parses := false
+			ast.Inspect(is.Body, func(k ast.Node) bool {
+				if call, ok := k.(*ast.CallExpr); ok && core.IsPkgFunc(info, call, "strconv", "ParseFloat") {
+					parses = true
+				}
+				return true
+			})
+			if !parses {
+				return true // only strips the suffix; the division is checked where the number is used
+			}
+			n++
+			key := fmt.Sprintf("canvas.%s|percentage #%d is divided by 100", core.FuncName(fd), n)
+			div := false
+			ast.Inspect(is.Body, func(k ast.Node) bool {
+				if be, ok := k.(*ast.BinaryExpr); ok && be.Op == token.QUO {
+					if f, ok := constantFloat(core.ConstVal(info, be.Y)); ok && f == 100 {
+						div = true
+					}
+				}
+				return true
+			})
+			if div {
+				r.OK("E11.svg-color-grammar", key, c.Pos(is.Pos()), "")
+			} else {
+				r.Fail("E11.svg-color-grammar", key, c.Pos(is.Pos()), "a number with a `%` suffix is parsed and used without dividing by 100: 50% of 255 becomes 12750 and wraps around")
+			}
+			return true
+		})
+	}
+	r.Count("E11.svg-percent-branches", n)
+	r.Floor("E11.svg-percent-branches", 1)
+}
+
+// E11SVGTransformSeparator: the names in a transform list are separated by white space and/or commas.
+func E11SVGTransformSeparator(c *core.Ctx, r *core.Report) {
+	r.Rule("E11.svg-transform-separator", "svgParser.parseTransform cuts a transform list into `name(args)` items. The SVG grammar separates items by white space and/or a comma, so the name compared in the switch over the transform functions is produced by an expression that removes commas as well as white space (a strings.Trim/TrimLeft/TrimFunc whose cutset or function covers ','). With white space only, the name of every item after a comma is `, name`, matches no case, and the item is skipped without an error")
+	p := c.MustPkg("")
+	info := p.TypesInfo
+	fd := core.MustFuncDecl(p, "svgParser.parseTransform")
+	r.Func("canvas.svgParser.parseTransform")
+	// the switch tag over string constants matrix/translate/...
+	var tag types.Object
+	ast.Inspect(fd.Body, func(m ast.Node) bool {
+		sw, ok := m.(*ast.SwitchStmt)
+		if !ok || sw.Tag == nil {
+			return true
+		}
+		id, ok := core.Unparen(sw.Tag).(*ast.Ident)
+		if !ok {
+			return true
+		}
+		for _, cs := range sw.Body.List {
+			for _, e := range cs.(*ast.CaseClause).List {
+				if v := core.ConstVal(info, e); v != nil && v.Kind() == constant.String && constant.StringVal(v) == "translate" {
+					tag = core.ObjOf(info, id)
+				}
+			}
+		}
+		return true
+	})
+	key := "canvas.svgParser.parseTransform|the transform name is cut free of commas"
+	if tag == nil {
+		r.Fail("E11.svg-transform-separator", key, c.Pos(fd.Pos()), "the switch over the transform names was not found")
+		return
+	}
+	ok := false
+	n := 0
+	ast.Inspect(fd.Body, func(m ast.Node) bool {
+		as, isAs := m.(*ast.AssignStmt)
+		if !isAs || len(as.Lhs) != len(as.Rhs) {
+			return true
+		}
+		for i, l := range as.Lhs {
+			if id, isId := l.(*ast.Ident); !isId || core.ObjOf(info, id) != tag {
+				continue
+			}
+			n++
+			ast.Inspect(as.Rhs[i], func(k ast.Node) bool {
+				call, isCall := k.(*ast.CallExpr)
+				if !isCall {
+					return true
+				}
+				f := core.CalleeOf(info, call)
+				if f == nil || f.Pkg() == nil || f.Pkg().Path() != "strings" {
+					return true
+				}
+				switch f.Name() {
+				case "Trim", "TrimLeft", "TrimRight":
+					if len(call.Args) == 2 {
+						if v := core.ConstVal(info, call.Args[1]); v != nil && v.Kind() == constant.String && strings.Contains(constant.StringVal(v), ",") && strings.Contains(constant.StringVal(v), " ") {
+							ok = true
+						}
+					}
+				case "TrimFunc", "TrimLeftFunc", "FieldsFunc":
+					ok = true // a predicate: not decided further
+				}
+				return true
+			})
+		}
+		return true
+	})
+	if ok {
+		r.OK("E11.svg-transform-separator", key, c.Pos(fd.Pos()), "")
+	} else {
+		r.Fail("E11.svg-transform-separator", key, c.Pos(fd.Pos()), fmt.Sprintf("the name compared with the transform functions is assigned at %d place(s), none of which removes a separating comma: `translate(1,1), scale(2)` loses its second item", n))
+	}
+	r.Count("E11.transform-name-assignments", n)
+	r.Floor("E11.transform-name-assignments", 1)
+}
+
+// E11SVGCascade: presentation attributes, then style-sheet rules, then the style attribute.
+func E11SVGCascade(c *core.Ctx, r *core.Report) {
+	r.Rule("E11.svg-cascade", "svgParser.setStyling applies the three sources of a property in the order of the SVG/CSS cascade, each overriding the previous one: presentation attributes (every attribute other than `style`), then the rules of <style> elements, then the declarations of the style attribute. In the function body the call that applies a non-style attribute therefore precedes the loop over the parser's CSS rules, which precedes the call that applies the parsed style attribute. With attributes applied last in document order, `<rect style=\"fill:red\" fill=\"none\">` is not filled and a CSS rule can never override an attribute")
+	p := c.MustPkg("")
+	info := p.TypesInfo
+	fd := core.MustFuncDecl(p, "svgParser.setStyling")
+	r.Func("canvas.svgParser.setStyling")
+	var posAttr, posCSS, posStyle token.Pos
+	ast.Inspect(fd.Body, func(m ast.Node) bool {
+		switch x := m.(type) {
+		case *ast.RangeStmt:
+			if se, ok := core.Unparen(x.X).(*ast.SelectorExpr); ok {
+				if t := info.TypeOf(se); t != nil && strings.Contains(t.String(), "cssRule") {
+					posCSS = x.Pos()
+				}
+			}
+			// range over parseStyleAttribute(...)
+			if call, ok := core.Unparen(x.X).(*ast.CallExpr); ok {
+				if f := core.CalleeOf(info, call); f != nil && f.Name() == "parseStyleAttribute" {
+					posStyle = x.Pos()
+				}
+			}
+		case *ast.CallExpr:
+			if f := core.CalleeOf(info, x); f != nil && f.Name() == "setAttribute" && len(x.Args) == 2 {
+				// the plain attribute application: arguments are fields of the range variable over the parameter
+				if se, ok := core.Unparen(x.Args[0]).(*ast.SelectorExpr); ok {
+					if id, ok := core.Unparen(se.X).(*ast.Ident); ok {
+						if o := core.ObjOf(info, id); o != nil {
+							// the loop variable ranges over the function's parameter
+							isParamLoop := false
+							ast.Inspect(fd.Body, func(k ast.Node) bool {
+								if rs, ok := k.(*ast.RangeStmt); ok {
+									if v, ok := rs.Value.(*ast.Ident); ok && core.ObjOf(info, v) == o {
+										if pid, ok := core.Unparen(rs.X).(*ast.Ident); ok && core.ObjOf(info, pid) == paramObj(info, fd, 0) {
+											isParamLoop = true
+										}
+									}
+								}
+								return true
+							})
+							if isParamLoop && posAttr == token.NoPos {
+								posAttr = x.Pos()
+							}
+						}
+					}
+				}
+			}
+		}
+		return true
+	})
+	key := "canvas.svgParser.setStyling|attributes, then style-sheet rules, then the style attribute"
+	switch {
+	case posAttr == token.NoPos || posCSS == token.NoPos || posStyle == token.NoPos:
+		r.Fail("E11.svg-cascade", key, c.Pos(fd.Pos()), fmt.Sprintf("the three stages were not all found (attributes: %v, style sheet: %v, style attribute: %v)", posAttr != token.NoPos, posCSS != token.NoPos, posStyle != token.NoPos))
+	case posAttr < posCSS && posCSS < posStyle:
+		r.OK("E11.svg-cascade", key, c.Pos(fd.Pos()), "")
+	default:
+		r.Fail("E11.svg-cascade", key, c.Pos(fd.Pos()), fmt.Sprintf("the stages are applied in the order %s: a later stage overrides an earlier one, so the precedence is not presentation attribute < style sheet < style attribute", func() string {
+			type st struct {
+				n string
+				p token.Pos
+			}
+			ss := []st{{"attributes", posAttr}, {"style sheet", posCSS}, {"style attribute", posStyle}}
+			sort.Slice(ss, func(i, j int) bool { return ss[i].p < ss[j].p })
+			return ss[0].n + " → " + ss[1].n + " → " + ss[2].n
+		}()))
+	}
+	r.Count("E11.cascade-stages", 3)
+	r.Floor("E11.cascade-stages", 3)
+}
+
+// E11JunctionPairing: at a junction the end of one segment is paired with the start of the next.
+func E11JunctionPairing(c *core.Ctx, r *core.Report) {
+	r.Rule("E11.junction-pairing", "(*Path).offset keeps, per segment, the normal and curvature radius at its start (n0, r0) and at its end (n1, r1). Every expression that relates two different segment states — the test whether a join is needed, the turn direction, the Joiner call — relates the end of the earlier one to the start of the later one: within one call, two selectors of the same kind (n or r) on different state variables have different suffixes (…1 with …0). Comparing cur.n1 with next.n1 is the same for lines (n0 = n1) but skips the join at a corner that is followed by a curve whose end tangent happens to be parallel to the segment before the corner; the outline then falls apart")
+	p := c.MustPkg("")
+	info := p.TypesInfo
+	fd := core.MustFuncDecl(p, "Path.offset")
+	r.Func("canvas.Path.offset")
+	type sel struct {
+		obj    string
+		kind   byte
+		suffix byte
+		pos    token.Pos
+		src    string
+	}
+	stateSel := func(e ast.Expr) (sel, bool) {
+		se, ok := core.Unparen(e).(*ast.SelectorExpr)
+		if !ok || len(se.Sel.Name) != 2 || (se.Sel.Name[0] != 'n' && se.Sel.Name[0] != 'r') || (se.Sel.Name[1] != '0' && se.Sel.Name[1] != '1') {
+			return sel{}, false
+		}
+		if s := info.Selections[se]; s == nil || s.Kind() != types.FieldVal {
+			return sel{}, false
+		}
+		return sel{types.ExprString(se.X), se.Sel.Name[0], se.Sel.Name[1], se.Pos(), types.ExprString(se)}, true
+	}
+	n := 0
+	ast.Inspect(fd.Body, func(m ast.Node) bool {
+		call, ok := m.(*ast.CallExpr)
+		if !ok {
+			return true
+		}
+		var sels []sel
+		collect := func(e ast.Expr) {
+			ast.Inspect(e, func(k ast.Node) bool {
+				if inner, ok := k.(*ast.CallExpr); ok && inner != call {
+					// nested calls are examined on their own, but their receivers' selectors belong to the chain
+					_ = inner
+				}
+				if ex, ok := k.(ast.Expr); ok {
+					if s, ok := stateSel(ex); ok {
+						sels = append(sels, s)
+						return false
+					}
+				}
+				return true
+			})
+		}
+		collect(call.Fun)
+		for _, a := range call.Args {
+			collect(a)
+		}
+		for i := 0; i < len(sels); i++ {
+			for j := i + 1; j < len(sels); j++ {
+				a, b := sels[i], sels[j]
+				if a.kind != b.kind || a.obj == b.obj {
+					continue
+				}
+				n++
+				key := fmt.Sprintf("canvas.Path.offset|junction relation #%d pairs an end with a start", n)
+				if a.suffix != b.suffix {
+					r.OK("E11.junction-pairing", key, c.Pos(a.pos), a.src+" ~ "+b.src)
+				} else {
+					r.Fail("E11.junction-pairing", key, c.Pos(a.pos), fmt.Sprintf("`%s` is related to `%s`: both are taken at the %s of their segments, but two consecutive segments meet at the end of the first and the start of the second", a.src, b.src, map[byte]string{'0': "start", '1': "end"}[a.suffix]))
+				}
+			}
+		}
+		return true
+	})
+	r.Count("E11.junction-relations", n)
+	r.Floor("E11.junction-relations", 4)
 }
